@@ -3,6 +3,8 @@ import StepupModel.Lemmas.K
 import StepupModel.Lemmas.MetaAfterW
 import StepupModel.Lemmas.MetaSafeReach
 import StepupModel.Lemmas.Discipline
+import StepupModel.Lemmas.ReadyDiscipline
+import StepupModel.Lemmas.SafeDiscipline
 /-!
 # C10  Dispatch is exact: nothing ineligible starts, nothing eligible is left
 
@@ -320,10 +322,57 @@ theorem raw_detach_of_an_output_file_negation : Disc cxCfg cxState ∧ Struct cx
     ∃ s', cxState.detach (fileKey "o") = .ok s' ∧ ¬ CacheInvAfterW s' cxCfg :=
   detach_output_file_breaks_discipline
 
-/-! The discipline of `_update_meta_safe` (`CacheInvSafeW`) is not yet a theorem over all histories;
-both disciplines are also sampled: on the model state after every request of the generated
-histories (`k cacheinv` of the driver runs the executable forms, proved equivalent), and on the
-real database by the cache oracle (`koracles.cache_invariants`). -/
+open StepupModel.K.MetaSafe StepupModel.K.SafeDisc in
+/-- **The cached `_safe` / `_safe_ignoring_hold` agree with their definition whenever a decision is
+taken, after any history.**  For every history in which a step is only defined "safe from the
+start" by the root (`HistOKS`: what `initialize_boot` does; no other caller passes `_safe=True`),
+under configurations that may change freely, the flag discipline of `_update_meta_safe` holds in
+the reached database, hence the refresh terminates there, clears every flag and leaves in every
+step row the value of the specification (every recursive step creator RUNNING or SUCCEEDED, and
+holding nothing). -/
+theorem cached_safe_agrees_after_every_history (h : List (KConfig × Req)) (hh : HistOKS h) :
+    ∃ s', (KState.init.run h).updateMetaSafe = .ok s' ∧ SafeFrame (KState.init.run h) s' ∧
+      (∀ n ∈ s'.nodes, n.key.kind = .step →
+        n.checkSafe = false ∧ SafeLocal s' n ∧ SafeNHLocal s' n ∧ n.safe = safeSpec s' n ∧ n.safeNH = safeNHSpec s' n) :=
+  reachable_updateMetaSafe_correct h hh
+
+open StepupModel.K.MetaSafe StepupModel.K.SafeDisc in
+/-- The side condition is needed: a step defined `safe` below a step creator that is not active is
+left with a wrong, unflagged `_safe` (a request the director never issues; replayed on the real
+code: `harness/witness/define_safe_under_step.txt`). -/
+theorem define_safe_under_step_negation :
+    CacheInvSafeW cxState ∧ KeysUnique cxState ∧
+    ¬ InitKindS (stepKey "A") (some (stepKey "./plan.py")) (.step { safe := true }) ∧
+    ∃ s', cxState.create (stepKey "A") (some (stepKey "./plan.py")) (.step { safe := true }) = .ok s' ∧
+      ¬ CacheInvSafeW s' :=
+  define_safe_under_step_breaks_discipline
+
+open StepupModel.K.ReadyDisc in
+/-- **The cached `_ready` agrees with its definition after every history, unconditionally** (every
+request kind, configurations free): every step that is not flagged `_check_ready` has
+`_ready = "no input is unavailable"` computed from the graph.  Each of the four triggers (file
+state, detached flag, dependency insert/delete, dynamic flag) is shown to be needed by a
+`decide`-checked witness in `Lemmas/ReadyDiscipline.lean`. -/
+theorem cached_ready_agrees_after_every_history (h : List (KConfig × Req)) :
+    ∀ n ∈ (KState.init.run h).nodes, n.key.kind = .step → n.checkReady = false →
+      n.ready = (KState.init.run h).computeReady n.key :=
+  reachable_cacheInvReady h
+
+open StepupModel.K.ReadyDisc in
+/-- "A step is dispatched only when ... it has all inputs available", on the graph, after every
+history: when `pop_next_job` hands out a job for step `k`, no input of `k` is unavailable, neither
+in the database it found nor in the one it leaves: every declared input is an attached BUILT or
+CONFIRMED file, no input is VOLATILE, no amended input is an attached PLANNED/OUTDATED file
+(`noUnavailableInput_spec`). -/
+theorem dispatched_step_inputs_available_after_every_history (h : List (KConfig × Req)) (cfg : KConfig)
+    (choice : Option Key) (s' : KState) (k : Key) (chk run : Bool)
+    (hd : (KState.init.run h).popNext cfg choice = .ok (s', .job k chk run)) :
+    NoUnavailableInput (KState.init.run h) k ∧ NoUnavailableInput s' k :=
+  reachable_dispatch_no_unavailable_input h cfg choice s' k chk run hd
+
+/-! All three flag disciplines are additionally sampled: on the model state after every request of
+the generated histories (`k cacheinv` of the driver runs the executable forms, proved equivalent),
+and on the real database by the cache oracle (`koracles.cache_invariants`). -/
 
 /-! Non-vacuity -/
 example : dispatchSpec (.pending, true, false, false, false, .default, true) = true := by decide
